@@ -54,7 +54,7 @@ def _bytes_shapes():
     return out
 
 
-@contract('bits.Bits._setbytes_with_truncation', shapes=_bytes_shapes(), props={'C15', 'C08', 'C17'}, kind='public',
+@contract('bits.Bits._setbytes_with_truncation', shapes=_bytes_shapes(), props={'C15', 'C08', 'C17'}, kind='public', observe_args='on_return',
           note="Bits(bytes=b, length=n, offset=k): exactly the bit window b[k:k+n] (n defaulting to the rest); CreationError when "
                "k < 0, n < 0 or the window runs past the data; the caller's buffer is not retained")
 def setbytes_spec(C, self, data, length=None, offset=None):
@@ -76,7 +76,7 @@ def _ba_shapes():
     return out
 
 
-@contract('bits.Bits._setbitarray', shapes=_ba_shapes(), props={'C15', 'C08', 'C04'}, kind='public',
+@contract('bits.Bits._setbitarray', shapes=_ba_shapes(), props={'C15', 'C08', 'C04'}, kind='public', observe_args='on_return',
           note="Bits(bitarray=ba, length=n, offset=k): the window ba[k:k+n] in a fresh buffer; CreationError for k < 0, n < 0 "
                "or a window past the end")
 def setbitarray_spec(C, self, ba, length, offset):
@@ -109,7 +109,7 @@ def _file_shapes():
     return out
 
 
-@contract('bits.Bits._setfile', shapes=_file_shapes(), props={'C15', 'C08', 'C17'}, kind='public',
+@contract('bits.Bits._setfile', shapes=_file_shapes(), props={'C15', 'C08', 'C17'}, kind='public', observe_args='on_return',
           note="Bits(filename=f, length=n, offset=k): logical content is the window file[k:k+n]; CreationError when the window "
                "is not inside the file (mmap/open are trusted: the mapped content is the file's bytes)")
 def setfile_spec(C, self, filename, length=None, offset=None):
@@ -138,7 +138,7 @@ def _bytesio_shapes():
     return out
 
 
-@contract('bits.Bits._setauto', shapes=_bytesio_shapes(), props={'C15', 'C08', 'C17'}, kind='public',
+@contract('bits.Bits._setauto', shapes=_bytesio_shapes(), props={'C15', 'C08', 'C17'}, kind='public', observe_args='on_return',
           note="Bits(BytesIO(b), length=n, offset=k): the window b[k:k+n]; CreationError when it is not inside the data")
 def setauto_spec(C, self, s, length, offset):
     if not isinstance(s, files.BytesIOModel):
